@@ -130,6 +130,11 @@ func (it *segmentIterator) next() (record, error) {
 
 	// Read key, value and checksum.
 	recordSize := encodedRecordSize(keySize + valueSize)
+	if int64(it.offset)+int64(recordSize) > it.f.size {
+		// The record is truncated or its size fields are corrupted.
+		// Don't allocate a buffer larger than the rest of the file.
+		return record{}, io.ErrUnexpectedEOF
+	}
 	data := make([]byte, recordSize)
 	copy(data, kvSizeBuf)
 	if _, err := io.ReadFull(it.r, data[6:]); err != nil {
